@@ -155,7 +155,8 @@ def char_alias(paths: list[Path], value_tag: str, name: str = 'c') -> dict[str, 
 
 
 def api_table(repo: Repo, module: str, qual: str, self_cls: str | None = None, bv_params: tuple[str, ...] = ('flags',),
-              values: dict[str, Any] | None = None, attrs: dict[str, Any] | None = None, **kw: Any) -> tuple[SymEval, list[Path]]:
+              values: dict[str, Any] | None = None, attrs: dict[str, Any] | None = None, preset: dict[str, bool] | None = None,
+              **kw: Any) -> tuple[SymEval, list[Path]]:
     """Decision table (with events) of a public function/method: parameters are bound by their API names, flag words as
     symbolic bit-vectors.  Locals, helper names and statement order inside the function are free."""
     fi = repo.func(module, qual)
@@ -168,7 +169,14 @@ def api_table(repo: Repo, module: str, qual: str, self_cls: str | None = None, b
     kw.setdefault('inline', False)
     ev = SymEval(repo, **kw)
     obj = Obj((module, self_cls or fi.cls), dict(attrs or {})) if fi.cls else None
-    return ev, ev.tabulate(fi, args, obj)
+    return ev, ev.tabulate(fi, args, obj, preset=preset)
+
+
+def as_bool(p: Path, v: Any) -> Any:
+    """A boolean-valued result that was left symbolic, resolved by the path's own decision on it (else unchanged)."""
+    if isinstance(v, Opaque) and v.tag in p.decisions:
+        return p.decisions[v.tag]
+    return v
 
 
 def bind_call(repo: Repo, name: str, args: list, kwargs: dict) -> dict[str, Any]:
@@ -201,4 +209,37 @@ def decided_bits(p: Path, origin: str) -> int:
     for a in p.decisions:
         if a.startswith(f'bit:{origin}:'):
             out |= int(a.rsplit(':', 1)[1], 16)
+    return out
+
+
+def site_events(repo: Repo, module: str, qual: str, site_pred: Callable[[ast.Call], bool], values: dict[str, Any] | None = None,
+                attrs: dict[str, Any] | None = None, self_cls: str | None = None, max_paths: int = 20000,
+                **kw: Any) -> list[tuple[ast.Call, list[tuple[Path, tuple]]]]:
+    """For every call site of interest in a function: the (path, call event) pairs of that site.
+
+    Each site gets its own backward slice (the statements that feed its arguments and the tests that guard it; loops without
+    the site are skipped, exits are dropped), so the table per site stays small however large the function is.  Argument
+    values in the events are named by their provenance from the parameters / self attributes.
+    """
+    from ..slicer import slice_function
+    fi = repo.func(module, qual)
+    sites = sorted([c for c in walk_no_nested(fi.node) if isinstance(c, ast.Call) and site_pred(c)], key=lambda c: (c.lineno, c.col_offset))
+    out = []
+    for c0 in sites:
+        sl = slice_function(fi, set(), keep_exits=False, keep_call=lambda c, c0=c0: c is c0, name=f'site@{c0.lineno}')
+
+        def lm(st: ast.AST, c0: ast.Call = c0) -> str:
+            return 'once' if any(x is c0 for x in ast.walk(st)) else 'skip'
+        kw2 = dict(kw)
+        kw2.setdefault('inline', False)
+        ev = SymEval(repo, loop_mode=lm, max_paths=max_paths, **kw2)
+        args = {}
+        for p in fi.params():
+            if p in ('self', 'cls'):
+                continue
+            args[p] = (values or {}).get(p, BV(p) if p == 'flags' else Opaque(p))
+        obj = Obj((module, self_cls or fi.cls), dict(attrs or {})) if fi.cls else None
+        paths = ev.tabulate(sl, args, obj)
+        hits = [(p, e) for p in paths for e in p.of('call') if e[4] is c0]
+        out.append((c0, hits))
     return out
